@@ -267,6 +267,7 @@ fn check_error(i: u64, e: &DbError, rate_limit: bool) -> bool {
 }
 
 struct C08Script {
+    vec_cell_len: Option<usize>,
     nometa_bomb: Option<i32>,
     deep_nesting: Option<usize>,
     /// Custom (id 0x0000) column types, as type-name strings, to put in the wide
@@ -383,7 +384,16 @@ impl Script for C08Script {
             return wide_rows();
         }
         if stmt.shape == VEC_Q {
-            return vec_rows();
+            let mut rows = vec_rows();
+            if let Some(len) = self.vec_cell_len {
+                _w.fault(world::Fault::Corrupt);
+                for r in rows.iter_mut() {
+                    if let Cell::Blob(b) = &mut r[0] {
+                        b.resize(len, 0x3f);
+                    }
+                }
+            }
+            return rows;
         }
         crate::cluster::default_rows(stmt, rq.marker)
     }
@@ -441,6 +451,9 @@ struct Plan {
     /// is answered with a 16-byte Rows body saying NO_METADATA, `cols` columns and
     /// 2^31-1 rows (no row bytes at all).
     nometa_bomb: Option<i32>,
+    /// Field-aware mutation: the cells of the vector<float, 5> column are cut to this many
+    /// bytes (the metadata still says 5 floats).
+    vec_cell_len: Option<usize>,
 }
 
 /// Prepared statement with a three-column partition key (and the marker bind).
@@ -564,6 +577,7 @@ pub fn run(req: &RunRequest) -> Value {
                 sharded: true,
                 pk_fuzz: None,
                 nometa_bomb: None,
+                vec_cell_len: None,
             }
         } else {
             let fault_free = tape::chance("c08:fault_free", 1, 10);
@@ -603,6 +617,11 @@ pub fn run(req: &RunRequest) -> Value {
                 },
                 nometa_bomb: if deep && !custom && tape::chance("c08:nometa_bomb", 1, 2) {
                     Some([0, 1, 2, -1][tape::choose("c08:bomb_cols", 4) as usize])
+                } else {
+                    None
+                },
+                vec_cell_len: if deep && tape::chance("c08:vec_cell", 1, 2) {
+                    Some([0usize, 1, 3, 4, 7, 8, 11, 12, 16, 19, 21, 40][tape::choose("c08:vec_cell_len", 12) as usize])
                 } else {
                     None
                 },
@@ -765,6 +784,7 @@ async fn main(plan: Plan) -> Outcome {
         let mut w = world::world();
         w.script = Some(Box::new(C08Script {
             nometa_bomb: plan.nometa_bomb,
+            vec_cell_len: plan.vec_cell_len,
             deep_nesting: plan.deep_nesting,
             custom_types: plan.custom_types.clone(),
             tablets: true,
@@ -784,7 +804,7 @@ async fn main(plan: Plan) -> Outcome {
         fetch_schema: true,
         ..SessionCfg::default()
     };
-    let clean = plan.mutation.is_none() && plan.deep_nesting.is_none() && plan.custom_types.is_none();
+    let clean = plan.mutation.is_none() && plan.deep_nesting.is_none() && plan.custom_types.is_none() && plan.vec_cell_len.is_none() && plan.nometa_bomb.is_none();
     let session: Arc<Session> = {
         // Auth is negotiated by the mock regardless of the credentials.
         let built = step(&mut out, "session", async {
@@ -1245,7 +1265,7 @@ fn finish(mut out: Outcome, plan: &Plan) -> Outcome {
     if fired.is_some() {
         out.count(if plan.enumerated { "enum_truncations_fired" } else { "sampled_mutations_fired" }, 1);
     }
-    if plan.mutation.is_none() && plan.deep_nesting.is_none() && plan.custom_types.is_none() {
+    if plan.mutation.is_none() && plan.deep_nesting.is_none() && plan.custom_types.is_none() && plan.vec_cell_len.is_none() && plan.nometa_bomb.is_none() {
         out.count("clean_runs", 1);
     }
     // Annotate violations with the damage so that the message pins the input.
